@@ -575,6 +575,15 @@ def compare(op, impl, model):
 PROBES = {'pre': None, 'post': None}
 
 
+def execute_impl(mode, cfg, ops, coro=False, server_opts=None):
+    """implementation only: -> (observations, names)"""
+    r = Runner(mode, cfg, coroutine_handlers=coro, server_opts=server_opts)
+    try:
+        return [r.do(copy.deepcopy(o)) for o in ops], r.names
+    finally:
+        r.close()
+
+
 def execute(mode, cfg, ops, coro=False):
     """Run a fixed op list on impl and model. -> (trace [(op, impl_obs, model_obs)], residue, snapshot, skipped)"""
     r = Runner(mode, cfg, coroutine_handlers=coro)
@@ -679,20 +688,28 @@ def run_cases(ctx, profile, ncases, nops, oracle=None, nontrivial=None, modes=('
         evals += len(ops)
         ctx.count('mode.' + mode)
         div = first_divergence(trace)
-        fails = oracle(cfg, trace, residue) if oracle else []
+        info = {'mode': mode, 'coro': coro}
+        if oracle and oracle.__code__.co_argcount >= 4:
+            _orc = oracle
+
+            def oracle_(c, t, r, _orc=_orc, info=info):
+                return _orc(c, t, r, info)
+        else:
+            oracle_ = oracle
+        fails = oracle_(cfg, trace, residue) if oracle_ else []
         if div or fails:
             case = {'mode': mode, 'coro': coro, 'cfg': cfg}
 
             def still(cand, want_oracle=bool(fails)):
                 tr, res, _ = execute(mode, cfg, cand, coro)
                 if want_oracle:
-                    return bool(oracle(cfg, tr, res))
+                    return bool(oracle_(cfg, tr, res))
                 return first_divergence(tr) is not None
             small = shrink_ops(ops, still)
             tr, res, _ = execute(mode, cfg, small, coro)
             case['ops'] = small
             if fails:
-                f2 = oracle(cfg, tr, res) or fails
+                f2 = oracle_(cfg, tr, res) or fails
                 for sig, text in f2[:3]:
                     if sig:
                         ctx.known(sig, text)
